@@ -1,0 +1,7 @@
+//go:build !verif
+
+package goldilocks
+
+import "github.com/consensys/gnark/frontend"
+
+func verifEvent(api frontend.API, kind string, args ...any) {}
